@@ -117,6 +117,25 @@ _STYLE_REFERENCE_ATTRIBUTES = frozenset((
     (TEXTNS, u'visited-style-name'),
 ))
 
+# Of those, the ones which never name a <style:style> (they name page layouts,
+# master pages, list styles, data styles, gradients, markers...), generally or
+# on one kind of element. Only <style:style> elements are renamed on load, so
+# these references have nothing to follow.
+_NOT_STYLE_STYLE_REFERENCES = frozenset((
+    (DRAWNS, u'fill-gradient-name'), (DRAWNS, u'fill-hatch-name'), (DRAWNS, u'fill-image-name'),
+    (DRAWNS, u'marker-end'), (DRAWNS, u'marker-start'), (DRAWNS, u'master-page-name'),
+    (DRAWNS, u'opacity-name'), (DRAWNS, u'stroke-dash'), (DRAWNS, u'stroke-dash-names'),
+    (PRESENTATIONNS, u'presentation-page-layout-name'),
+    (STYLENS, u'data-style-name'), (STYLENS, u'list-style-name'), (STYLENS, u'master-page-name'),
+    (STYLENS, u'page-layout-name'), (STYLENS, u'percentage-data-style-name'),
+    (TEXTNS, u'master-page-name'), (TEXTNS, u'style-override'),
+))
+_NOT_STYLE_STYLE_REFERENCES_ON = frozenset((
+    ((TEXTNS, u'list'), (TEXTNS, u'style-name')),                 # a list style
+    ((TEXTNS, u'numbered-paragraph'), (TEXTNS, u'style-name')),   # a list style
+    ((STYLENS, u'master-page'), (STYLENS, u'next-style-name')),   # a master page
+))
+
 class OpaqueObject:
     """
     just a record to bear a filename, a mediatype and a bytes content
@@ -221,7 +240,9 @@ class OpenDocument:
             # a style was renamed: from here on all references to the old
             # name refer to the new one, whatever attribute they are made with
             for qname in list(elt.attributes.keys()):
-                if qname in _STYLE_REFERENCE_ATTRIBUTES:
+                if qname in _STYLE_REFERENCE_ATTRIBUTES \
+                   and qname not in _NOT_STYLE_STYLE_REFERENCES \
+                   and (elt.qname, qname) not in _NOT_STYLE_STYLE_REFERENCES_ON:
                     names = unicode(elt.attributes[qname]).split()
                     if [ n for n in names if n in self._styles_ooo_fix ]:
                         elt.attributes[qname] = \
